@@ -259,6 +259,9 @@ pub fn string_atoms() -> Vec<&'static str> {
         "", "a", "ab", "\"", "\\", "/", "\u{08}", "\u{0c}", "\n", "\r", "\t", "\u{00}", "\u{1f}", "\u{7f}",
         "\u{80}", "\u{e9}", "\u{d7ff}", "\u{e000}", "\u{ffff}", "\u{10000}", "\u{1f603}", "\u{10ffff}",
         "a\"", "\\n", "é/", "😃a", " ", "null", "1",
+        // characters that other software treats specially: the replacement character, a non-character, the BOM,
+        // the line separator
+        "\u{fffd}", "a\u{fffd}b", "\u{fffe}", "\u{feff}", "\u{2028}",
     ]
 }
 
